@@ -169,13 +169,14 @@ CHECKS["C09"] = {
     "level": "exploration",
     "exhaustive_claim": True,
     "technique": "bounded-exhaustive enumeration of revocation histories x update windows x application scripts (shared vs fresh update objects) plus rapid-generated longer histories, each step compared with an abstract model (witness index, revocation point, window bounds, signature time); validity checked against harness-computed accumulator values",
-    "level_text": "Every history up to the bound (each event revokes a fresh value or a not-yet-revoked earlier witness; one witness issued at every index), every contiguous window with the original and a re-signed accumulator, and every script up to the stated length is executed on fresh witness copies; after each step the returned error class, the witness index, its validity u^e = nu_idx (nu recomputed by the harness with the private key), immutability on failure and non-validity of revoked witnesses are checked. A separate generated search drives every failure exit of Witness.Update (gap, revoked value, issuer-signed accumulator value that does not belong to the events, witness damaged in storage) and demands an error and a bit-identical witness.",
+    "level_text": "Every history up to the bound (each event revokes a fresh value or a not-yet-revoked earlier witness; one witness issued at every index), every contiguous window with the original and a re-signed accumulator, and every script up to the stated length is executed on fresh witness copies; after each step the returned error class, the witness index, its validity u^e = nu_idx (nu recomputed by the harness with the private key), immutability on failure and non-validity of revoked witnesses are checked. A separate generated search drives every failure exit of Witness.Update (gap, revoked value, issuer-signed accumulator value that does not belong to the events, witness damaged in storage) and demands an error and a bit-identical witness; and update messages assembled by the receiver with Update.Prepend (older events decoded from JSON/CBOR with and without a precomputed product, overlapping or adjacent) are applied to witnesses at every index against the same model.",
     "level_note": "Bounds: n<=3 events and all scripts<=2 steps (quick); n<=3 / scripts<=3 (third step thinned by half) and n=4 / scripts<=2 (second step thinned to a third) in thorough; random search n<=12, scripts<=10. Update objects are built in memory with already-verified accumulators (authenticity is C10's subject).",
     "rule": ("case = one application script on one history. Non-trivial: scripts in which a witness receives >= 2 applicable updates, or one update object serves witnesses at two different indices, or a revoked witness is updated across its revocation; distinct by (revocation targets, script)."),
     "assumptions": ["math/big for nu^(1/e mod p'q')"],
     "units": [
         {"pkg": "revocation", "run": "TestVF_C09_Exhaustive", "shards": {"quick": 8, "thorough": 16}, "timeout": {"quick": 500, "thorough": 3400}},
         {"pkg": "revocation", "run": "TestVF_C09_Random", "rapid": {"quick": 800, "thorough": 6000}, "shards": {"quick": 4, "thorough": 16}},
+        {"pkg": "revocation", "run": "TestVF_C09_Prepended", "shards": {"quick": 8, "thorough": 16}, "timeout": {"quick": 500, "thorough": 3400}},
         {"pkg": "revocation", "run": "TestVF_C09_FailedUpdate", "rapid": {"quick": 600, "thorough": 6000}, "shards": {"quick": 2, "thorough": 8}},
     ],
 }
